@@ -124,6 +124,8 @@ type VC struct {
 	heap0    Heap
 	strConst map[string]string
 	f64Const map[string]string
+	hasPreds map[string]types.Type
+	idTypes  map[int]types.Type
 	typeIDs  map[string]int
 	ufDecl   map[string]bool
 
@@ -146,6 +148,8 @@ type VC struct {
 	rangeOf   map[ssa.Value]ssa.Value
 	heapBound map[string]string
 	assertSet map[string]bool
+	nonNilGlobs []string
+	ldCache     map[string][]string
 }
 
 type loopInfo struct {
@@ -318,6 +322,10 @@ func (vc *VC) rangeFact(term string, l Leaf, h Heap) string {
 			if id, base := vc.baseType(pt.Elem()); base {
 				f = and(f, implies(not(eq("(p_obj "+term+")", "0")),
 					and(eq("(dyntype (p_obj "+term+"))", num(int64(id))), eq("(p_slot "+term+")", "0"), eq("(p_idx "+term+")", "0"))))
+			} else if n, isN := pt.Elem().(*types.Named); isN {
+				if _, isS := n.Underlying().(*types.Struct); isS && n.TypeArgs().Len() == 0 {
+					f = and(f, implies(not(eq("(p_obj "+term+")", "0")), "("+vc.hasPred(n)+" (dyntype (p_obj "+term+")))"))
+				}
 			}
 		}
 		return f
@@ -354,10 +362,15 @@ func (vc *VC) backingType(t types.Type) (int, bool) {
 	}
 	vc.root().P.nestedByValue()
 	k := types.TypeString(el, nil)
-	if vc.root().P.arrayElems[k] {
+	// Assumption (listed in the evidence): slices other than byte slices are backed by slice
+	// allocations (make/append/literals), never by an array embedded in another object.
+	// Byte slices are routinely cut from [N]byte fields (hashes, keys) and get no such fact.
+	if b, ok := el.Underlying().(*types.Basic); ok && (b.Kind() == types.Uint8 || b.Kind() == types.Int8) && vc.root().P.arrayElems[k] {
 		return 0, false
 	}
-	return vc.typeID2("[]backing:" + k), true
+	id := vc.typeID2("[]backing:" + k)
+	vc.recordIDType(id, el)
+	return id, true
 }
 
 func (vc *VC) typeID2(s string) int {
@@ -383,7 +396,9 @@ func (vc *VC) baseType(t types.Type) (int, bool) {
 	if vc.root().nestedBV[n] || n.TypeArgs().Len() > 0 {
 		return 0, false
 	}
-	return vc.typeID(n), true
+	id := vc.typeID(n)
+	vc.recordIDType(id, n)
+	return id, true
 }
 
 func (vc *VC) assumeRanges(guard string, terms []string, t types.Type, h Heap) {
@@ -694,6 +709,9 @@ func (vc *VC) havocAll(h *Heap, why string) {
 	}
 	h.Alloc = vc.declare(vc.fresh("alloc"), "Int")
 	vc.assume("(>= " + h.Alloc + " " + old + ")")
+	for _, g := range vc.root().nonNilGlobs {
+		vc.assume(not(eq(sel(sel(sel(h.H[SIface], g), "0"), "0"), "niliface")))
+	}
 }
 
 // ---------------------------------------------------------------- constants
@@ -741,6 +759,14 @@ func (vc *VC) val(v ssa.Value) []string {
 		vc.declare(name, "Int")
 		r := []string{"(mkptr " + name + " 0 0)"}
 		vc.assume("(and (< 0 " + name + ") (<= " + name + " " + vc.root().heap0.Alloc + "))")
+		gid := vc.typeID2("global:" + x.Pkg.Pkg.Path() + "." + x.Name())
+		vc.recordIDType(gid, x.Type().Underlying().(*types.Pointer).Elem())
+		vc.assume("(= (dyntype " + name + ") " + num(int64(gid)) + ")")
+		if vc.P.nonNilGlobal(x) {
+			root := vc.root()
+			root.nonNilGlobs = append(root.nonNilGlobs, name)
+			vc.assume(not(eq(sel(sel(sel(root.heap0.H[SIface], name), "0"), "0"), "niliface")))
+		}
 		vc.vals[v] = r
 		return r
 	case *ssa.Function:
